@@ -167,7 +167,8 @@ func (m *Menu) Put(selector string, title string) error {
 func (m *Menu) Sizes(ctx context.Context) ([4]uint32, error) {
 	var menuSizes [4]uint32
 	cfg := m.GetBrowseConfig()
-	tmpm := NewMenu().WithBrowseConfig(cfg)
+	// measure the entries as they will be rendered: resolved labels, configured separator
+	tmpm := NewMenu().WithBrowseConfig(cfg).WithSeparator(m.sep).WithResource(m.rs)
 	v, err := tmpm.Render(ctx, 0)
 	if err != nil {
 		return menuSizes, err
